@@ -270,6 +270,7 @@ theorem fifo_step {s : State} (h : Fifo s) (op : Op) : Fifo (step s op).1 := by
   | take hd => obtain ⟨a, b, c⟩ := take_socket s hd; exact h.socket a b c
   | get hd => exact h.same (same_get s hd)
   | dupHandle hd => exact h.same (same_dupHandle s hd)
+  | dupHandleFail hd => simp only [step, dupHandleFail_state]; exact h
   | cloneHandle hd => exact h.same (same_cloneHandle s hd)
   | dropHandle hd => exact h.same (same_dropHandle s hd)
 
